@@ -33,6 +33,9 @@ def exhaustive_pure():
         [[F(0), F(1, 2), F(1, 2), F(1, 2)], [F(1, 2), F(0), F(1, 2), F(1, 2)], [F(1, 2), F(1, 2), F(0), F(1, 2)],
          [F(1, 2), F(1, 2), F(1, 2), F(0)]],
     ]
+    # the same matrices with the lower half left at zero (upper-triangular input) and a non-symmetric one
+    mats = mats + [[[x if j >= i else F(0) for j, x in enumerate(r)] for i, r in enumerate(m)] for m in mats[:2]]
+    mats.append([[F(0), F(3, 4), F(1, 2)], [F(0), F(0), F(5, 4)], [F(7, 8), F(1, 4), F(0)]])
     for m in mats:
         n = len(m)
         for thr in (F(1, 2), F(3, 4)):
